@@ -11,8 +11,8 @@ behaviourally identical ones (DESIGN.md section 5, must-stay-silent corpus):
   two non-constant operands of == / != are put in text order
 * ``not (a <op> b)``             ->  the negated comparison
 * ``pass`` next to other statements is dropped
-* ``t = E`` directly followed by ``return t`` (t used nowhere else)
-                                 ->  ``return E``
+* ``t = E`` directly followed by ``return t`` / ``if t:`` (t used nowhere
+  else)                          ->  ``return E`` / ``if E:``
 
 Positions (lineno) are kept; evaluation order inside one expression is not
 modelled by any rule, so swapping comparison operands is harmless here."""
@@ -112,12 +112,19 @@ def _inline_return_temps(fn):
             nxt = stmts[i + 1] if i + 1 < len(stmts) else None
             if isinstance(st, ast.Assign) and len(st.targets) == 1 and \
                     isinstance(st.targets[0], ast.Name) and \
-                    isinstance(nxt, ast.Return) and isinstance(nxt.value, ast.Name) \
-                    and nxt.value.id == st.targets[0].id and \
                     counts.get(st.targets[0].id, 0) == 2:
-                nxt.value = st.value
-                i += 1
-                continue
+                nm = st.targets[0].id
+                if isinstance(nxt, ast.Return) and isinstance(nxt.value, ast.Name) \
+                        and nxt.value.id == nm:
+                    nxt.value = st.value
+                    i += 1
+                    continue
+                if isinstance(nxt, ast.If) and isinstance(nxt.test, ast.Name) \
+                        and nxt.test.id == nm:
+                    # `t = <cond>` ; `if t:`  (t used nowhere else)
+                    nxt.test = st.value
+                    i += 1
+                    continue
             for fld in ("body", "orelse", "finalbody"):
                 b = getattr(st, fld, None)
                 if isinstance(b, list) and b and isinstance(b[0], ast.stmt) and \
@@ -144,9 +151,9 @@ def _drop_pass(tree):
 
 def normalise(tree):
     _drop_pass(tree)
-    tree = _Canon().visit(tree)
     for fn in [n for n in ast.walk(tree)
                if isinstance(n, (ast.FunctionDef, ast.AsyncFunctionDef))]:
         _inline_return_temps(fn)
+    tree = _Canon().visit(tree)
     ast.fix_missing_locations(tree)
     return tree
